@@ -80,12 +80,20 @@ CheckViews(M) ==
   /\ Clause("ViewByIndex", Rec.views.index = ViewOf(M, "index"), <<Rec.kind>>)
   /\ Clause("ViewLen", Rec.views.len = Len(M.pkeys) /\ Rec.views.items = M.pvals, <<Rec.kind>>)
 
+\* the model the rename was called on is another object unless the rename returned the receiver itself: whatever is
+\* done to the parameter mapping of the result, the original's mapping stays what it was
+CheckOriginal ==
+  Clause("OriginalParametersIndependent",
+         IF Rec.is_orig = 1 THEN Rec.orig_items = Rec.post.pvals ELSE Rec.orig_items = Rec.orig_before,
+         <<Rec.kind, Rec.is_orig, Rec.orig_before, Rec.orig_items>>)
+
 CheckGet ==
   LET pre == Pre
       idx == Resolve(pre, Rec.kind, Key, {})
   IN /\ Clause("ParamGet", LawGet(pre, idx, Res), <<Rec.kind, idx, Res>>)
      /\ Clause("ParamGetPure", Post = pre, <<Rec.kind>>)
      /\ CheckViews(pre)
+     /\ CheckOriginal
      /\ Stat("get", TRUE) /\ Stat("get_keyerror", idx = 0)
 
 CheckSet ==
@@ -95,7 +103,8 @@ CheckSet ==
       want == IF idx = 0 THEN pre ELSE [pre EXCEPT !.pvals[idx] = Rec.value]
   IN /\ Clause("ParamSet", LawSet(pre, post, idx, Res) /\ post = want, <<Rec.kind, idx, Res, Differing(post, want)>>)
      /\ CheckViews(want)
-     /\ Stat("set", TRUE) /\ Stat("set_keyerror", idx = 0)
+     /\ CheckOriginal
+     /\ Stat("set", TRUE) /\ Stat("set_on_other_object", Rec.is_orig = 0) /\ Stat("set_keyerror", idx = 0)
 
 CheckPickle ==
   /\ Clause("PickleIdentity", Post = Pre /\ Rec.equal = 1, <<Differing(Post, Pre)>>)
